@@ -40,7 +40,8 @@ pub struct Case {
     /// per file: lines; a line is Ok(text) or a malformed json line
     pub files: Vec<Vec<Result<String, String>>>,
     pub strategy: u8,
-    pub seed: u64,
+    /// None = the loader's default (no seed given; only legal without shuffle)
+    pub seed: Option<u64>,
     pub epoch: usize,
     pub skip: usize,
     pub limit: Option<usize>,
@@ -194,7 +195,7 @@ fn loader_args(c: &Case, f: &Files, v: &Vary, epoch: usize) -> LoaderArgs {
         shuffle: v.shuffle,
         prefetch_factor: v.prefetch,
         sort: v.sort,
-        seed: Some(c.seed),
+        seed: c.seed,
         skip: v.skip,
         limit: v.limit,
         distributed: v.world,
@@ -298,9 +299,9 @@ const LETTERS: &[&str] = &["a", "b", "c", "d"];
 impl Prop for C08 {
     type Case = Case;
     const ID: &'static str = "C08";
-    const RULE: &'static str = "1-3 jsonl files of 0-12 clean lines (occasionally up to 5 files of up to 60 lines, world size up to 9, 12 threads, buffer 32) over a 4-letter alphabet (each line carries a unique file:line marker; ~5% malformed lines) x strategy x seed x epoch x skip x limit x world size 1..=4 x fast-forward k x num_threads 0..=4 x buffer 0..=4 x sort/shuffle/prefetch/batch limit/limit type x pipeline grammar (preprocessing in {none, clean, whitespace corruption, switch, spelling corruption with a generated 3-gram table with tied frequencies, chain}, task whitespace correction or generation with a byte tokenizer, postprocessing in {none, clip length, token masking}); every case runs the real TrainLoader ~10 times through the verif driver (reference run: threads 0, world 1, k 0, no sort/shuffle) under a chaos controller and checks: identical batches for other (threads, buffer), for a fresh loader and for the same loader object re-iterated (set_epoch + __iter__) after another, partly consumed epoch; same item multiset for any batching; per-rank streams disjoint with union = reference (positional when unshuffled); fast_forward(k) = reference after its first k; skip=m / limit=m split; every marker has one fingerprint in all runs. Non-trivial: randomised preprocessing, >= 4 items and at least two of {world > 1, k > 0, threads > 0, shuffle}. Distinct = distinct serialised case.";
+    const RULE: &'static str = "1-3 jsonl files of 0-12 clean lines (occasionally up to 5 files of up to 60 lines, world size up to 9, 12 threads, buffer 32) over a 4-letter alphabet (each line carries a unique file:line marker; ~5% malformed lines) x strategy x seed (or none given: the loader's default, without shuffle) x epoch x skip x limit x world size 1..=4 x fast-forward k x num_threads 0..=4 x buffer 0..=4 x sort/shuffle/prefetch/batch limit/limit type x pipeline grammar (preprocessing in {none, clean, whitespace corruption, switch, spelling corruption with a generated 3-gram table with tied frequencies, chain}, task whitespace correction or generation with a byte tokenizer, postprocessing in {none, clip length, token masking}); every case runs the real TrainLoader ~10 times through the verif driver (reference run: threads 0, world 1, k 0, no sort/shuffle) under a chaos controller and checks: identical batches for other (threads, buffer), for a fresh loader and for the same loader object re-iterated (set_epoch + __iter__) after another, partly consumed epoch; same item multiset for any batching; per-rank streams disjoint with union = reference (positional when unshuffled); fast_forward(k) = reference after its first k; skip=m / limit=m split; every marker has one fingerprint in all runs. Non-trivial: randomised preprocessing, >= 4 items and at least two of {world > 1, k > 0, threads > 0, shuffle}. Distinct = distinct serialised case.";
     const HANG_SECS: u64 = 60;
-    const ESSENTIAL: &'static [&'static str] = &["ws_corruption", "spelling_corruption", "switch", "world>1", "ff>0", "threads>0", "shuffle", "sort", "malformed_lines", "weighted", "interleaved", "skip_limit", "token_masking", "reused_loader"];
+    const ESSENTIAL: &'static [&'static str] = &["ws_corruption", "spelling_corruption", "switch", "world>1", "ff>0", "threads>0", "shuffle", "sort", "malformed_lines", "weighted", "interleaved", "skip_limit", "token_masking", "reused_loader", "no_seed"];
 
     fn budget(tier: Tier) -> Budget {
         match tier {
@@ -339,7 +340,7 @@ impl Prop for C08 {
         )
             .prop_map(|(pre, p_ins, p_del, spell_p, char_p, grams, post, max_length)| Pipeline { pre, p_ins, p_del, spell_p, char_p, grams, post, max_length });
         (
-            (files, 0u8..3, 0u64..6, 0usize..3),
+            (files, 0u8..3, prop_oneof![5 => (0u64..6).prop_map(Some), 1 => Just(None)], 0usize..3),
             (0usize..6, prop_oneof![2 => Just(None), 1 => (0usize..30).prop_map(Some)], prop_oneof![10 => 1usize..=4, 1 => 5usize..=9], prop_oneof![8 => 0usize..8, 1 => 8usize..40]),
             (prop_oneof![10 => 0u8..=4, 1 => 5u8..=12], prop_oneof![10 => 0usize..=4, 1 => 5usize..=32], any::<bool>(), any::<bool>(), 0usize..=3, prop_oneof![10 => 1usize..=6, 1 => 7usize..=40], any::<bool>()),
             (pipeline, any::<u64>(), 0usize..20),
@@ -355,6 +356,8 @@ impl Prop for C08 {
                     }
                 }
                 let batch_limit = if padded { batch_limit * 24 } else { batch_limit };
+                // the loader rejects shuffle without a seed
+                let shuffle = shuffle && seed.is_some();
                 Case { files, strategy, seed, epoch, skip, limit, world, ff, threads, buffer, sort, shuffle, prefetch, batch_limit, padded, pipeline, chaos, split_at }
             })
             .boxed()
@@ -383,6 +386,7 @@ impl Prop for C08 {
         out.label_if(c.ff > 0, "ff>0");
         out.label_if(c.threads > 0, "threads>0");
         out.label_if(c.shuffle, "shuffle");
+        out.label_if(c.seed.is_none(), "no_seed");
         out.label_if(c.sort, "sort");
         out.label_if(c.strategy == 2, "weighted");
         out.label_if(c.strategy == 1, "interleaved");
